@@ -263,7 +263,15 @@ pub fn c12(opts: &Opts, out: &mut Out) {
                     let vid = vt.shadow_id;
                     merlin::tap::start();
                     fm::tap_start();
-                    let r = fmrun::Proof::verify_batch(&mut [vt], std::slice::from_ref(&stmt_v), std::slice::from_ref(&proof), VerifyAction::VerifyOnly);
+                    let r = match std::panic::catch_unwind(std::panic::AssertUnwindSafe(|| fmrun::Proof::verify_batch(&mut [vt], std::slice::from_ref(&stmt_v), std::slice::from_ref(&proof), VerifyAction::VerifyOnly))) {
+                        Ok(r) => r,
+                        Err(_) => {
+                            out.oracle("C12:cross-capacity-accepted", false, &key, "verification panicked");
+                            let _ = fm::tap_take();
+                            let _ = merlin::tap::take();
+                            continue;
+                        },
+                    };
                     let whole = fm::tap_is_whole_check();
                     let residuals = fm::tap_take();
                     let recs = merlin::tap::take();
@@ -318,7 +326,15 @@ pub fn c12(opts: &Opts, out: &mut Out) {
             let tids: Vec<u64> = ts.iter().map(|t| t.shadow_id).collect();
             merlin::tap::start();
             fm::tap_start();
-            let r = fmrun::Proof::verify_batch(&mut ts, &stmts, &proofs, VerifyAction::VerifyOnly);
+            let r = match std::panic::catch_unwind(std::panic::AssertUnwindSafe(|| fmrun::Proof::verify_batch(&mut ts, &stmts, &proofs, VerifyAction::VerifyOnly))) {
+                Ok(r) => r,
+                Err(_) => {
+                    out.oracle("C12:mixed-capacity-batch", false, &format!("round={} variant={} n={} t={}", round, variant, n, t), "verify_batch panicked on a batch of valid proofs with mixed capacities");
+                    let _ = fm::tap_take();
+                    let _ = merlin::tap::take();
+                    continue;
+                },
+            };
             let msm_in = fm::msm_inputs();
             let tap_consistent = fm::tap_is_whole_check();
             let _ = fm::tap_take();
